@@ -109,7 +109,7 @@ class Gen:
     """Structured op-sequence generator. `mix` = dict op -> weight."""
 
     def __init__(self, rng, mix, max_threads=3, storagecap=None, malformed=0.0, lock_bias=0.15,
-                 avoid=frozenset(), letters=LETTERS, ndeps=0, shared=False):
+                 avoid=frozenset(), letters=LETTERS, ndeps=0, shared=False, latedep_held=False):
         self.r = rng
         self.mix = mix
         self.ref = Ref()
@@ -120,6 +120,7 @@ class Gen:
         self.avoid = avoid
         self.letters = letters
         self.shared = shared
+        self.latedep_held = latedep_held   # late declarations also for components that live entities hold
         self.ref.threads = rng.randint(1, max_threads)
         self.emit("threads %d" % self.ref.threads)
         if storagecap:
@@ -189,7 +190,7 @@ class Gen:
         if op == "create":
             comps = set(r.sample(self.letters, r.randint(0, min(3, len(self.letters)))))
             sh = []
-            if self.shared and not locked and r.random() < 0.25:
+            if self.shared and r.random() < 0.25:
                 sh = sorted(r.sample(SHARED, r.randint(1, 3)))
             o = ref.n
             ref.n += 1
@@ -415,7 +416,7 @@ class Gen:
             if locked:
                 return
             alive = ref.projected()[0]
-            cands = [m for m in self.letters if not any(m in e["c"] for e in alive.values())]
+            cands = [m for m in self.letters if self.latedep_held or not any(m in e["c"] for e in alive.values())]
             if not cands:
                 return
             m = r.choice(cands)
@@ -423,6 +424,39 @@ class Gen:
             if ds:
                 ref.add_dep(m, ds)
                 self.emit("dep %s %s" % (m, ",".join(sorted(ds))))
+        elif op == "latescn":
+            # a transition "archetype X + component m" is used, and only then m's dependents are declared; a second
+            # member of X must still get them (an archetype-transition cache that a declaration does not invalidate)
+            if locked:
+                return
+            cands = [m for m in self.letters if not any(m in e["c"] for e in ref.alive.values())]
+            if not cands:
+                return
+            m = r.choice(cands)
+            base = [c for c in r.sample(self.letters, r.randint(0, 2)) if c != m]
+            if m in ref.closure(set(base)):
+                return
+            ds = [d for d in r.sample(self.letters, r.randint(1, 2)) if d != m]
+            if not ds:
+                return
+            mask = ",".join(sorted(base)) or "-"
+            o1 = ref.n
+            ref.n += 1
+            self.emit("create %s" % mask)
+            self.emit("assign0 %d %s" % (o1, m) if m == "D" or r.random() < 0.5 else "assign %d %s %d" % (o1, m, self.newtok()))
+            if r.random() < 0.5:
+                self.emit("destroynow %d" % o1)
+            else:
+                self.emit("remove %d %s" % (o1, m))
+                ref.alive[o1] = {"c": ref.closure(ref.closure(set(base) | {m}) - {m}), "s": {}}
+            ref.add_dep(m, ds)
+            self.emit("dep %s %s" % (m, ",".join(sorted(ds))))
+            o2 = ref.n
+            ref.n += 1
+            self.emit("create %s" % mask)
+            self.emit("assign0 %d %s" % (o2, m) if m == "D" or r.random() < 0.5 else "assign %d %s %d" % (o2, m, self.newtok()))
+            ref.alive[o2] = {"c": ref.closure(set(base) | {m}), "s": {}}
+            self.emit("dump")
         elif op == "parjob":
             if locked or ref.threads < 1:
                 return
